@@ -256,6 +256,23 @@ pub fn c07(opts: &Opts) -> Report {
             ctx.rep.bump("programs");
             if ctx.rep.samples.len() < 4 && d == 3 { ctx.rep.sample(format!("{} (well_typed={}, infer_none={})", text, well_typed, infer_none)); }
         });
+    // the same discipline at the command line: when a later section is ill-typed the run fails as a whole -- exit 1 and
+    // NOTHING on stdout, not the sections before it
+    if !opts.cli_bin.is_empty() {
+        for (k, tpl) in ["A={upper} B={sort} C={lower}", "{split:,:..|join:-} then {split:,:..|upper}", "x{lower}y{unique}", "{upper}{split:,:0|map:{upper}}", "ok {upper}"].iter().enumerate() {
+            for flags in [vec![], vec!["--quiet"]] {
+                let out = std::process::Command::new(&opts.cli_bin).args(&flags).arg("--").arg(tpl).arg("a,b").stdin(std::process::Stdio::null()).output();
+                rep.evaluations += 1; rep.bump("cli_whole_run_fails");
+                if let Ok(o) = out {
+                    let so = String::from_utf8_lossy(&o.stdout).to_string();
+                    let lib = real::parse_format(tpl, "a,b");
+                    let ok = match &lib { Out::Ok(v) => o.status.code() == Some(0) && so == *v, _ => o.status.code() == Some(1) && so.is_empty() };
+                    if !ok { rep.violation(format!("C07: string-pipeline {flags:?} {tpl:?} a,b: exit {:?}, stdout {so:?}, but the library gives {}", o.status.code(), lib.show()),
+                        vec![("kind".into(), "property".into()), ("template".into(), tpl.to_string()), ("input".into(), "a,b".into()), ("route".into(), "cli".into()), ("case".into(), k.to_string()), ("theorem".into(), "C07_ill_typed_fails / C13_cli_err".into())]); break; }
+                }
+            }
+        }
+    }
     rep.exhaustive = true;
     rep
 }
@@ -564,6 +581,40 @@ pub fn c14(opts: &Opts) -> Report {
                 if t.real != exp { viol(ctx, format!("C14: {} on {:?} = {} but the engine gives {}", t.text, xin, t.real.show(), exp.show()), vec![("template", t.text.clone()), ("input", xin.clone()), ("observed", t.real.show()), ("expected", exp.show()), ("theorem", "C14_replace_is_engine".into())]); }
                 return;
             }
+            if i % 30 == 9 {
+                // an escaped "|" or ":" inside a pattern, followed by what would end the argument if it were not escaped
+                let k = (i / 30) as usize;
+                let pat = ["a\\|sort", "^\\|upper$", "\\w+\\:80", "^\\w\\:1$", "x\\|join:,", "\\:..", "b\\|unique"][k % 7];
+                let items = ["a|sort", "|upper", "host:80", "w:1", "x|join:,", "a:..", "b|unique", "a", "sort", "host80"];
+                let xs = items.join(";");
+                let re = regex::Regex::new(pat).unwrap();
+                for neg in [false, true] {
+                    let text = format!("{{split:;:..|{}:{pat}|join:;}}", if neg { "filter_not" } else { "filter" });
+                    let got = real::parse_format(&text, &xs);
+                    let want = Out::Ok(items.iter().filter(|w| re.is_match(w) != neg).cloned().collect::<Vec<_>>().join(";"));
+                    ctx.rep.eval(); ctx.rep.bump("escaped_terminators_inside_patterns");
+                    if got != want { viol(ctx, format!("C14: {text} on {xs:?} = {} but the engine with the pattern {pat:?} gives {}", got.show(), want.show()), vec![("template", text), ("input", xs.clone()), ("observed", got.show()), ("expected", want.show()), ("theorem", "C14_filter_is_engine".into())]); return; }
+                }
+                let t2 = format!("{{regex_extract:{pat}}}"); let x2 = items[k % 7];
+                let g2 = real::parse_format(&t2, x2); let w2 = Out::Ok(re.find(x2).map(|m| m.as_str().to_string()).unwrap_or_default());
+                if g2 != w2 { viol(ctx, format!("C14: {t2} on {x2:?} = {} but the engine gives {}", g2.show(), w2.show()), vec![("template", t2), ("input", x2.to_string()), ("observed", g2.show()), ("expected", w2.show()), ("theorem", "C14_extract_is_engine".into())]); }
+                return;
+            }
+            if i % 30 == 3 {
+                // a filter that meets an EMPTY list still has to be a valid pattern: same outcome whatever the data
+                let k = (i / 30) as usize;
+                let bad = ["[", "(", "a{2,1}", "\\p{Foo}"][k % 4];
+                let mk = |first: &str, neg: bool| vec![Op::Split(",".into(), Range::Range(None, None, false)), Op::Filter(first.into()), if neg { Op::FilterNot(bad.into()) } else { Op::Filter(bad.into()) }, Op::Join(",".into())];
+                for first in ["^z", "^a", "."] { for neg in [false, true] {
+                    let ops = mk(first, neg);
+                    if !gens::raw_ok(bad, false) { continue; }
+                    let t = triple(ctx, &ops, "a,b", false);
+                    ctx.rep.eval(); ctx.rep.bump("invalid_pattern_after_emptying_filter");
+                    if !judge(ctx, "C14", &t, &ops, "a,b", "C14_filter_is_engine") { return; }
+                    if t.real != Out::Err { viol(ctx, format!("C14: {} on \"a,b\" = {} although {bad:?} is not a valid pattern", t.text, t.real.show()), vec![("template", t.text.clone()), ("input", "a,b".into()), ("observed", t.real.show()), ("expected", "Err".into()), ("theorem", "C14_invalid_regex_is_error".into())]); return; }
+                } }
+                return;
+            }
             if i % 30 == 21 {
                 // empty items inside map: a pattern that matches the empty string rewrites them too, and a pattern that does
                 // not compile is an error even if every item is empty
@@ -764,7 +815,7 @@ pub fn c15(opts: &Opts) -> Report {
             if i % 10 == 4 {
                 let xin = "color: red !important;margin: 0;top: 1px !important;important: no;a != b;!";
                 let its: Vec<&str> = xin.split(';').collect();
-                for p3 in ["!important", "!=", "!", "^!", "!$", "-v", "~x", "\\!i"] {
+                for p3 in ["!important", "!=", "!", "^!", "!$", "-v", "~x", "\\!i", ""] {
                     let re = regex::Regex::new(p3).unwrap();
                     for neg in [false, true] {
                         let text = format!("{{split:;:..|{}:{p3}|join:;}}", if neg { "filter_not" } else { "filter" });
